@@ -153,7 +153,8 @@ fn fit_with<D: Distance<Vec<f64>, f64> + serde::Serialize>(case: &DbscanCase, di
     let q = DenseMatrix::from_2d_vec(&case.queries);
     catch(|| {
         let alg = if cover { KNNAlgorithmName::CoverTree } else { KNNAlgorithmName::LinearSearch };
-        let params = DBSCANParameters::default().with_eps(case.eps).with_min_samples(case.min_samples).with_algorithm(alg).with_distance(dist.clone());
+        // builder calls in two orders (a setter that rebuilds from the defaults would lose earlier settings)
+        let params = if case.data.len() % 2 == 0 { DBSCANParameters::default().with_eps(case.eps).with_min_samples(case.min_samples).with_algorithm(alg).with_distance(dist.clone()) } else { DBSCANParameters::default().with_distance(dist.clone()).with_algorithm(alg).with_min_samples(case.min_samples).with_eps(case.eps) };
         let m = DBSCAN::fit(&x, params).map_err(|e| format!("fit: {}", e))?;
         let v = serde_json::to_value(&m).map_err(|e| format!("serialise: {}", e))?;
         let labels: Vec<i64> = v["cluster_labels"].as_array().ok_or("no cluster_labels")?.iter().map(|x| x.as_i64().unwrap_or(i64::MIN)).collect();
